@@ -112,7 +112,7 @@ def regen_constants():
 class C10(Property):
     id = "C10"
     title = "MapReduce: exactly-once mapping, complete reduction, clean termination"
-    quick_cases = 820
+    quick_cases = 700
     thorough_cases = 9000
     design_ref = "DESIGN.md §6/C10, §5/F4"
     level_text = ("Rocq theorems over a process-network LTS of core/mr (caller, generator wrapper, executeMappers, mapper "
@@ -275,6 +275,10 @@ class C10(Property):
             # F29: an error that is ErrReduceNoOutput passed to cancel under MapReduceVoid / returned by a Finish function
             {"api": "void", "workers": 1, "gen": [["send", 1]], "maps": {"1": [["cancel", 1002]]}, "red": [["recvall"]], "events": []},
             {"api": "finish", "workers": 2, "gen": [["send", 0], ["send", 1]], "maps": {"0": [["cancel", 1005]], "1": []}, "red": [], "events": []},
+            # ... passed to cancel by the REDUCER of MapReduceVoid (its cancel func is wrapped separately), and by a mapper wrapped
+            {"api": "void", "workers": 1, "gen": [["send", 1]], "maps": {"1": [["write", 4]]}, "red": [["recv"], ["cancel", 1002], ["recvall"]], "events": []},
+            {"api": "void", "workers": 1, "gen": [], "maps": {}, "red": [["cancel", 1005]], "events": []},
+            {"api": "void", "workers": 2, "gen": [["send", 1], ["send", 2]], "maps": {"1": [], "2": [["cancel", 1005]]}, "red": [["recvall"]], "events": []},
         ] if getattr(self, "void_nooutput", False) else [])
 
     def _value_corpus(self):
